@@ -120,6 +120,21 @@ func (c *oblCtx) condFacts(cond ast.Expr, truth bool) []fact {
 
 func (c *oblCtx) condFacts0(cond ast.Expr, truth bool) []fact {
 	switch e := ast.Unparen(cond).(type) {
+	case *ast.Ident:
+		// the ok of an earlier `v, ok := x.(T)`: when it holds, x (and v) have dynamic type T and v is not nil
+		if truth && c.okBind != nil {
+			if as := c.okBind[objOf(c.info(), e)]; as != nil {
+				if ta, ok := ast.Unparen(as.Rhs[0]).(*ast.TypeAssertExpr); ok && ta.Type != nil {
+					if tt := c.info().TypeOf(ta.Type); tt != nil {
+						out := []fact{{tyExpr: es(ta.X), tySet: []string{tt.String()}}}
+						if v, ok := as.Lhs[0].(*ast.Ident); ok && v.Name != "_" {
+							out = append(out, fact{tyExpr: v.Name, tySet: []string{tt.String()}}, fact{nonNil: v.Name}, fact{alias: v.Name, aliasOf: es(ta.X)})
+						}
+						return out
+					}
+				}
+			}
+		}
 	case *ast.UnaryExpr:
 		if e.Op == token.NOT {
 			return c.condFacts(e.X, !truth)
@@ -183,8 +198,6 @@ func (c *oblCtx) condFacts0(cond ast.Expr, truth bool) []fact {
 				return []fact{{nonNil: es(x)}}
 			}
 		}
-	case *ast.Ident:
-		// ok variable of a comma-ok assertion is handled where the assignment is seen
 	}
 	return nil
 }
